@@ -728,4 +728,612 @@ theorem cw_swap {s s' : State} {frm recv : Addr} {hash : Bytes} {amt : Int}
   have e2 := recs_sendModuleToAccount h2
   rw [← e1, ← e2]; rfl
 
+/-! ### `KeysOK` is preserved by every handler -/
+
+theorem keyed_set {κ α : Type} [DecidableEq κ] {t : Tbl κ α} {P : κ → α → Prop} (h : ∀ k v, t.get k = some v → P k v)
+    (k : κ) (v : α) (hv : P k v) : ∀ k' v', (t.set k v).get k' = some v' → P k' v' := by
+  intro k' v' hg
+  rw [Tbl.get_set] at hg
+  split at hg
+  · rename_i e; cases hg; rw [← e]; exact hv
+  · exact h k' v' hg
+
+theorem keyed_erase {κ α : Type} [DecidableEq κ] {t : Tbl κ α} {P : κ → α → Prop} (h : ∀ k v, t.get k = some v → P k v)
+    (k : κ) : ∀ k' v', (t.erase k).get k' = some v' → P k' v' := by
+  intro k' v' hg
+  rw [Tbl.get_erase] at hg
+  split at hg
+  · cases hg
+  · exact h k' v' hg
+
+theorem KeysOK.of_recs {s s' : State} (h : recs s' = recs s) (hk : KeysOK s) : KeysOK s' := by
+  have h1 : s'.provActive = s.provActive := congrArg Recs.provActive h
+  have h2 : s'.provInactive = s.provInactive := congrArg Recs.provInactive h
+  have h3 : s'.nodeActive = s.nodeActive := congrArg Recs.nodeActive h
+  have h4 : s'.nodeInactive = s.nodeInactive := congrArg Recs.nodeInactive h
+  have h5 : s'.planActive = s.planActive := congrArg Recs.planActive h
+  have h6 : s'.planInactive = s.planInactive := congrArg Recs.planInactive h
+  have h8 : s'.subs = s.subs := congrArg Recs.subs h
+  have h9 : s'.allocs = s.allocs := congrArg Recs.allocs h
+  have h10 : s'.payouts = s.payouts := congrArg Recs.payouts h
+  have h11 : s'.sessions = s.sessions := congrArg Recs.sessions h
+  exact ⟨by rw [h1]; exact hk.provA, by rw [h2]; exact hk.provI, by rw [h3]; exact hk.nodeA, by rw [h4]; exact hk.nodeI,
+    by rw [h5]; exact hk.planA, by rw [h6]; exact hk.planI, by rw [h8]; exact hk.subs, by rw [h11]; exact hk.sess,
+    by rw [h9]; exact hk.allocs, by rw [h10]; exact hk.payouts⟩
+
+theorem keysOK_setProvider {s s' : State} {p : Provider} (hk : KeysOK s) (h : setProvider s p = .ok s') : KeysOK s' := by
+  unfold setProvider at h
+  split at h <;> simp only [pure_eq_ok, gopanic_ne_ok] at h
+  · subst h; exact { hk with provA := keyed_set hk.provA _ _ rfl }
+  · subst h; exact { hk with provI := keyed_set hk.provI _ _ rfl }
+
+theorem keysOK_setNode {s s' : State} {n : Node} (hk : KeysOK s) (h : setNode s n = .ok s') : KeysOK s' := by
+  unfold setNode at h
+  split at h <;> simp only [pure_eq_ok, gopanic_ne_ok] at h
+  · subst h; exact { hk with nodeA := keyed_set hk.nodeA _ _ rfl }
+  · subst h; exact { hk with nodeI := keyed_set hk.nodeI _ _ rfl }
+
+theorem keysOK_setPlan {s s' : State} {p : Plan} (hk : KeysOK s) (h : setPlan s p = .ok s') : KeysOK s' := by
+  unfold setPlan at h
+  split at h <;> simp only [pure_eq_ok, gopanic_ne_ok] at h
+  · subst h; exact { hk with planA := keyed_set hk.planA _ _ rfl }
+  · subst h; exact { hk with planI := keyed_set hk.planI _ _ rfl }
+
+theorem keysOK_insertSub {s : State} (hk : KeysOK s) (sub : Sub) : KeysOK (insertSub s sub) := by
+  unfold insertSub
+  cases sub.kind <;> exact { hk with subs := keyed_set hk.subs _ _ rfl }
+
+theorem keysOK_setAllocation {s : State} (hk : KeysOK s) (a : Alloc) : KeysOK (setAllocation s a) :=
+  { hk with allocs := keyed_set hk.allocs _ _ ⟨rfl, rfl⟩ }
+
+theorem keysOK_insertPayout {s : State} (hk : KeysOK s) (p : Payout) : KeysOK (insertPayout s p) :=
+  { hk with payouts := keyed_set hk.payouts _ _ rfl }
+
+theorem keysOK_insertSession {s : State} (hk : KeysOK s) (x : Session) : KeysOK (insertSession s x) :=
+  { hk with sess := keyed_set hk.sess _ _ rfl }
+
+theorem keysOK_sessionToPending {s : State} (hk : KeysOK s) (x : Session) : KeysOK (sessionToPending s x) :=
+  { hk with sess := keyed_set hk.sess _ _ rfl }
+
+theorem keysOK_emit {s : State} (hk : KeysOK s) (e : Event) : KeysOK (emit s e) := hk.of_recs (by rfl)
+
+theorem keysOK_provRegister {s s' : State} {frm : Addr} {n i w d : Bytes} (hk : KeysOK s)
+    (h : provRegister s frm n i w d = .ok s') : KeysOK s' := by
+  unfold provRegister at h
+  simp only [bind_eq_ok, pure_eq_ok, require_eq_ok] at h
+  obtain ⟨_, _, s1, h1, s2, h2, rfl⟩ := h
+  exact keysOK_emit (keysOK_setProvider (hk.of_recs (recs_fundCommunityPool h1)) h2) _
+
+theorem keysOK_provUpdate {s s' : State} {frm : Addr} {n i w d : Bytes} {st : Status} (hk : KeysOK s)
+    (h : provUpdate s frm n i w d st = .ok s') : KeysOK s' := by
+  unfold provUpdate at h
+  simp only [bind_eq_ok, pure_eq_ok, orReject_eq_ok] at h
+  obtain ⟨p, hp, s3, h3, rfl⟩ := h
+  refine keysOK_emit (keysOK_setProvider ?_ h3) _
+  split <;> split <;>
+    first
+      | exact hk
+      | exact { hk with provA := keyed_erase hk.provA _ }
+      | exact { hk with provI := keyed_erase hk.provI _ }
+      | exact { hk with provA := keyed_erase hk.provA _, provI := keyed_erase hk.provI _ }
+
+theorem keysOK_nodeRegister {s s' : State} {frm : Addr} {gb hr : Coins} {url : Bytes} (hk : KeysOK s)
+    (h : nodeRegister s frm gb hr url = .ok s') : KeysOK s' := by
+  unfold nodeRegister at h
+  simp only [bind_eq_ok, pure_eq_ok, require_eq_ok] at h
+  obtain ⟨_, _, _, _, _, _, s1, h1, s2, h2, rfl⟩ := h
+  exact keysOK_emit (keysOK_setNode (hk.of_recs (recs_fundCommunityPool h1)) h2) _
+
+theorem keysOK_nodeUpdate {s s' : State} {frm : Addr} {gb hr : Option Coins} {url : Bytes} (hk : KeysOK s)
+    (h : nodeUpdate s frm gb hr url = .ok s') : KeysOK s' := by
+  unfold nodeUpdate at h
+  simp only [bind_eq_ok, pure_eq_ok, require_eq_ok, orReject_eq_ok] at h
+  obtain ⟨_, _, _, _, n, hn, s1, h1, rfl⟩ := h
+  exact keysOK_emit (keysOK_setNode hk h1) _
+
+theorem keysOK_nodeStatus {s s' : State} {frm : Addr} {st : Status} (hk : KeysOK s)
+    (h : nodeStatus s frm st = .ok s') : KeysOK s' := by
+  unfold nodeStatus at h
+  simp only [bind_eq_ok, pure_eq_ok, orReject_eq_ok] at h
+  obtain ⟨n, hn, s5, h5, rfl⟩ := h
+  refine keysOK_emit (keysOK_setNode ?_ h5) _
+  split <;> split <;> split <;> split <;>
+    first
+      | exact hk
+      | exact hk.of_recs (by rfl)
+      | exact { hk with nodeA := keyed_erase hk.nodeA _ }
+      | exact { hk with nodeI := keyed_erase hk.nodeI _ }
+      | exact { hk with nodeA := keyed_erase hk.nodeA _, nodeI := keyed_erase hk.nodeI _ }
+
+theorem keysOK_nodeSubscribe {s s' : State} {frm node : Addr} {gb hr : Int} {denom : Denom} (hk : KeysOK s)
+    (h : nodeSubscribe s frm node gb hr denom = .ok s') : KeysOK s' := by
+  unfold nodeSubscribe createSubscriptionForNode at h
+  simp only [bind_eq_ok, pure_eq_ok, require_eq_ok, orReject_eq_ok] at h
+  obtain ⟨_, _, _, _, r, ⟨n, _, _, _, hr'⟩, rfl⟩ := h
+  refine keysOK_emit ?_ _
+  split at hr'
+  · unfold createNodeSubGB at hr'
+    simp only [bind_eq_ok, pure_eq_ok, orReject_eq_ok] at hr'
+    obtain ⟨price, _, bytes, _, amt, _, dep, _, s1, h1, granted, _, rfl⟩ := hr'
+    exact keysOK_emit (keysOK_setAllocation (keysOK_insertSub (hk.of_recs (recs_addDeposit h1)) _) _) _
+  · unfold createNodeSubHr at hr'
+    simp only [bind_eq_ok, pure_eq_ok, orReject_eq_ok] at hr'
+    obtain ⟨price, _, amt, _, dep, _, s1, h1, pa, _, hourly, _, rfl⟩ := hr'
+    exact keysOK_insertPayout (keysOK_insertSub (hk.of_recs (recs_addDeposit h1)) _) _
+
+theorem keysOK_planCreate {s s' : State} {frm : Addr} {dur : Dur} {gb : Int} {prices : Coins} (hk : KeysOK s)
+    (h : planCreate s frm dur gb prices = .ok s') : KeysOK s' := by
+  unfold planCreate at h
+  simp only [bind_eq_ok, pure_eq_ok, require_eq_ok] at h
+  obtain ⟨_, _, s1, h1, rfl⟩ := h
+  have k0 : KeysOK { s with planCount := some (s.planCount.getD 0 + 1) } := hk.of_recs (by rfl)
+  exact (keysOK_setPlan k0 h1).of_recs (by rfl)
+
+theorem keysOK_planStatus {s s' : State} {frm : Addr} {id : Nat} {st : Status} (hk : KeysOK s)
+    (h : planStatus s frm id st = .ok s') : KeysOK s' := by
+  unfold planStatus at h
+  simp only [bind_eq_ok, pure_eq_ok, require_eq_ok, orReject_eq_ok] at h
+  obtain ⟨p, hp, _, _, s3, h3, rfl⟩ := h
+  refine keysOK_emit (keysOK_setPlan ?_ h3) _
+  split <;> split <;>
+    first
+      | exact hk
+      | exact { hk with planA := keyed_erase hk.planA _ }
+      | exact { hk with planI := keyed_erase hk.planI _ }
+      | exact { hk with planA := keyed_erase hk.planA _, planI := keyed_erase hk.planI _ }
+
+theorem keysOK_planLink {s s' : State} {frm : Addr} {id : Nat} {node : Addr} (hk : KeysOK s)
+    (h : planLink s frm id node = .ok s') : KeysOK s' := by
+  unfold planLink at h
+  simp only [bind_eq_ok, pure_eq_ok, require_eq_ok, orReject_eq_ok] at h
+  obtain ⟨p, _, _, _, _, _, rfl⟩ := h
+  exact ⟨hk.provA, hk.provI, hk.nodeA, hk.nodeI, hk.planA, hk.planI, hk.subs, hk.sess, hk.allocs, hk.payouts⟩
+
+theorem keysOK_planUnlink {s s' : State} {frm : Addr} {id : Nat} {node : Addr} (hk : KeysOK s)
+    (h : planUnlink s frm id node = .ok s') : KeysOK s' := by
+  unfold planUnlink at h
+  simp only [bind_eq_ok, pure_eq_ok, require_eq_ok, orReject_eq_ok] at h
+  obtain ⟨p, _, _, _, rfl⟩ := h
+  exact ⟨hk.provA, hk.provI, hk.nodeA, hk.nodeI, hk.planA, hk.planI, hk.subs, hk.sess, hk.allocs, hk.payouts⟩
+
+theorem keysOK_planSubscribe {s s' : State} {frm : Addr} {id : Nat} {denom : Denom} (hk : KeysOK s)
+    (h : planSubscribe s frm id denom = .ok s') : KeysOK s' := by
+  unfold planSubscribe createSubscriptionForPlan at h
+  simp only [bind_eq_ok, pure_eq_ok, require_eq_ok, requireP_eq_ok, orReject_eq_ok] at h
+  obtain ⟨r, ⟨plan, hplan, _, _, price, _, reward, _, s1, h1, payAmt, _, _, _, s2, h2, granted, _, rfl⟩, rfl⟩ := h
+  have k2 : KeysOK s2 := (hk.of_recs (recs_sendCoinFromAccountToModule h1)).of_recs (recs_sendCoin h2)
+  exact keysOK_emit (keysOK_emit (keysOK_setAllocation (keysOK_insertSub (keysOK_emit k2 _) _) _) _) _
+
+theorem keysOK_hookFold (l : List Nat) :
+    ∀ (s s' : State), l.foldlM (fun (s : State) (sid : Nat) => do
+        let x ← orPanic (s.sessions.get sid) "session for subscription key does not exist"
+        pure (if x.status = Status.StatusActive then sessionToPending s x else s)) s = .ok s' →
+      KeysOK s → KeysOK s' := by
+  induction l with
+  | nil =>
+    intro s s' h hk
+    simp only [List.foldlM, pure_eq_ok] at h
+    subst h; exact hk
+  | cons a rest ih =>
+    intro s s' h hk
+    simp only [List.foldlM, bind_eq_ok, pure_eq_ok, orPanic_eq_ok] at h
+    obtain ⟨s1, ⟨x, hx, rfl⟩, h2⟩ := h
+    refine ih _ s' h2 ?_
+    split
+    · exact keysOK_sessionToPending hk x
+    · exact hk
+
+theorem keysOK_subCancel {s s' : State} {frm : Addr} {id : Nat} (hk : KeysOK s)
+    (h : subCancel s frm id = .ok s') : KeysOK s' := by
+  unfold subCancel at h
+  simp only [bind_eq_ok, require_eq_ok, orReject_eq_ok] at h
+  obtain ⟨sub, hsub, _, _, _, _, s1, h1, h2⟩ := h
+  unfold subscriptionInactivePendingHook at h1
+  have k0 : KeysOK { s with subQ := s.subQ.erase (sub.inactiveAt, sub.id) } := hk.of_recs (by rfl)
+  have k1 : KeysOK s1 := keysOK_hookFold _ _ s1 h1 k0
+  have k2 : KeysOK (subToPending s1 sub s.params.subDelay).1 := by
+    unfold subToPending
+    exact { k1 with subs := keyed_set k1.subs _ _ rfl }
+  unfold detachPayout at h2
+  split at h2
+  · simp only [Bool.false_eq_true, if_false, bind_eq_ok, pure_eq_ok, orReject_eq_ok] at h2
+    obtain ⟨p, hp, rfl⟩ := h2
+    unfold detachPayoutRec
+    exact { k2 with payouts := keyed_set k2.payouts _ _ rfl }
+  · rw [pure_eq_ok] at h2; subst h2; exact k2
+
+theorem keysOK_subAllocate {s s' : State} {frm toA : Addr} {id : Nat} {bytes : Int} (hk : KeysOK s)
+    (h : subAllocate s frm id toA bytes = .ok s') : KeysOK s' := by
+  unfold subAllocate at h
+  simp only [bind_eq_ok, pure_eq_ok, require_eq_ok, orReject_eq_ok] at h
+  obtain ⟨sub, _, _, _, _, _, fa, hfa, _, _, g, _, u, _, av, _, _, _, fg, _, _, _, _, _, rfl⟩ := h
+  have k1 : KeysOK (if (s.allocs.get (id, toA)).isNone = true then { s with subForAcc := s.subForAcc.set (toA, id) () } else s) := by
+    split
+    · exact hk.of_recs (by rfl)
+    · exact hk
+  exact keysOK_emit (keysOK_setAllocation (keysOK_emit (keysOK_setAllocation k1 _) _) _) _
+
+theorem keysOK_sessStart {s s' : State} {frm : TextAddr} {id : Nat} {node : Addr} (hk : KeysOK s)
+    (h : sessStart s frm id node = .ok s') : KeysOK s' := by
+  unfold sessStart at h
+  simp only [bind_eq_ok, pure_eq_ok, require_eq_ok, orReject_eq_ok] at h
+  obtain ⟨sub, _, _, _, n, _, _, _, _, _, _, _, latest, _, _, _, rfl⟩ := h
+  exact keysOK_emit (keysOK_insertSession hk _) _
+
+theorem keysOK_sessUpdate {s s' : State} {frm : Addr} {id : Nat} {up down dur : Int} {sig : SigSpec} (hk : KeysOK s)
+    (h : sessUpdate s frm id up down dur sig = .ok s') : KeysOK s' := by
+  unfold sessUpdate at h
+  simp only [bind_eq_ok, pure_eq_ok, require_eq_ok, orReject_eq_ok] at h
+  obtain ⟨x, hx, _, _, _, _, _, _, rfl⟩ := h
+  refine keysOK_emit ?_ _
+  split
+  · exact { hk with sess := keyed_set hk.sess _ _ rfl }
+  · exact { hk with sess := keyed_set hk.sess _ _ rfl }
+
+theorem keysOK_sessEnd {s s' : State} {frm : Addr} {id : Nat} (hk : KeysOK s) (h : sessEnd s frm id = .ok s') : KeysOK s' := by
+  unfold sessEnd at h
+  simp only [bind_eq_ok, pure_eq_ok, require_eq_ok, orReject_eq_ok] at h
+  obtain ⟨x, hx, _, _, _, _, rfl⟩ := h
+  exact keysOK_sessionToPending hk x
+
+theorem keysOK_swap {s s' : State} {frm recv : Addr} {hash : Bytes} {amt : Int} (hk : KeysOK s)
+    (h : swap s frm hash recv amt = .ok s') : KeysOK s' := by
+  unfold swap at h
+  simp only [bind_eq_ok, pure_eq_ok, require_eq_ok] at h
+  obtain ⟨_, _, _, _, _, _, q, _, coin, _, s1, h1, s2, h2, rfl⟩ := h
+  have k2 : KeysOK s2 := (hk.of_recs (recs_mintCoins h1)).of_recs (recs_sendModuleToAccount h2)
+  exact k2.of_recs (by rfl)
+
+theorem keysOK_handle {s s' : State} {m : Msg} (hk : KeysOK s) (h : m.handle s = .ok s') : KeysOK s' := by
+  cases m <;> simp only [Msg.handle] at h
+  case provRegister => exact keysOK_provRegister hk h
+  case provUpdate => exact keysOK_provUpdate hk h
+  case nodeRegister => exact keysOK_nodeRegister hk h
+  case nodeUpdate => exact keysOK_nodeUpdate hk h
+  case nodeStatus => exact keysOK_nodeStatus hk h
+  case nodeSubscribe => exact keysOK_nodeSubscribe hk h
+  case planCreate => exact keysOK_planCreate hk h
+  case planStatus => exact keysOK_planStatus hk h
+  case planLink => exact keysOK_planLink hk h
+  case planUnlink => exact keysOK_planUnlink hk h
+  case planSubscribe => exact keysOK_planSubscribe hk h
+  case subCancel => exact keysOK_subCancel hk h
+  case subAllocate => exact keysOK_subAllocate hk h
+  case sessStart => exact keysOK_sessStart hk h
+  case sessUpdate => exact keysOK_sessUpdate hk h
+  case sessEnd => exact keysOK_sessEnd hk h
+  case swap => exact keysOK_swap hk h
+
+/-- Every delivered message — accepted or rejected — keeps records under their own keys. -/
+theorem KeysOK_deliver (s : State) (m : Msg) (hk : KeysOK s) : KeysOK (deliver s m).1 := by
+  rcases deliver_cases s m with ⟨s', _, hh, hd⟩ | ⟨msg, hd, _⟩
+  · rw [hd]; exact keysOK_handle hk.clr hh
+  · rw [hd]; exact hk.clr
+
+/-! ### genesis -/
+
+theorem recs_addBalance (s : State) (b : Addr × Denom × Int) : recs (addBalance s b) = recs s := by
+  unfold addBalance
+  split <;> rfl
+
+theorem keysOK_genesis (g : Genesis) : KeysOK g.state := by
+  have h0 : KeysOK g.base := by
+    refine ⟨?_, ?_, ?_, ?_, ?_, ?_, ?_, ?_, ?_, ?_⟩ <;> intro k v h <;> simp [Genesis.base] at h
+  unfold Genesis.state
+  have key : ∀ (l : List (Addr × Denom × Int)) (s0 : State), KeysOK s0 → KeysOK (l.foldl addBalance s0) := by
+    intro l
+    induction l with
+    | nil => intro s0 h; exact h
+    | cons b rest ih => intro s0 h; exact ih _ (h.of_recs (recs_addBalance s0 b))
+  exact key g.balances g.base h0
+
+/-! ### block hooks and governance keep `KeysOK` (so it holds in every reachable state) -/
+
+theorem recs_putDeposit (s : State) (a : Addr) (c : Coins) : recs (putDeposit s a c) = recs s := by
+  unfold putDeposit; split <;> rfl
+
+theorem recs_depositToAccount {s s' : State} {f t : Addr} {c : Coin} (h : depositToAccount s f t c = .ok s') : recs s' = recs s := by
+  unfold depositToAccount at h
+  simp only [bind_eq_ok, pure_eq_ok, require_eq_ok, orReject_eq_ok] at h
+  obtain ⟨cur, _, _, _, s1, hs1, rfl⟩ := h
+  have e := recs_sendModuleToAccount hs1
+  rw [← e]
+  exact (rfl : recs (emit (putDeposit s1 f (cur.sub c)) _) = recs (putDeposit s1 f (cur.sub c))).trans (recs_putDeposit _ _ _)
+
+theorem recs_depositToModule {s s' : State} {f m : Addr} {c : Coin} (h : depositToModule s f m c = .ok s') : recs s' = recs s := by
+  unfold depositToModule at h
+  simp only [bind_eq_ok, pure_eq_ok, require_eq_ok, orReject_eq_ok] at h
+  obtain ⟨cur, _, _, _, s1, hs1, rfl⟩ := h
+  have e := recs_of_moneyFrame (sendCoins_frame hs1)
+  rw [← e]
+  exact (rfl : recs (emit (putDeposit s1 f (cur.sub c)) _) = recs (putDeposit s1 f (cur.sub c))).trans (recs_putDeposit _ _ _)
+
+theorem recs_sendCoinFromDepositToAccount {s s' : State} {f t : Addr} {c : Coin}
+    (h : sendCoinFromDepositToAccount s f t c = .ok s') : recs s' = recs s := by
+  unfold sendCoinFromDepositToAccount at h
+  split at h
+  · rw [pure_eq_ok] at h; rw [h]
+  · exact recs_depositToAccount h
+
+theorem recs_sendCoinFromDepositToModule {s s' : State} {f m : Addr} {c : Coin}
+    (h : sendCoinFromDepositToModule s f m c = .ok s') : recs s' = recs s := by
+  unfold sendCoinFromDepositToModule at h
+  split at h
+  · rw [pure_eq_ok] at h; rw [h]
+  · exact recs_depositToModule h
+
+theorem recs_subtractDeposit {s s' : State} {a : Addr} {c : Coin} (h : subtractDeposit s a c = .ok s') : recs s' = recs s := by
+  unfold subtractDeposit at h
+  split at h
+  · rw [pure_eq_ok] at h; rw [h]
+  · exact recs_depositToAccount h
+
+theorem recs_mintBeginBlock_go (l : List Inflation) (s : State) : recs (mintBeginBlock.go s l) = recs s := by
+  induction l generalizing s with
+  | nil => rfl
+  | cons item rest ih =>
+    unfold mintBeginBlock.go
+    split
+    · rfl
+    · rw [ih]; rfl
+
+theorem recs_distrSweep (s : State) : recs (distrSweep s) = recs s := by
+  unfold distrSweep
+  have key : ∀ (l : List Denom) (s0 : State), recs (l.foldl sweepDenom s0) = recs s0 := by
+    intro l
+    induction l with
+    | nil => intro s0; rfl
+    | cons d rest ih =>
+      intro s0
+      rw [List.foldl_cons, ih]
+      unfold sweepDenom setBalance
+      rfl
+  exact key _ s
+
+theorem keysOK_foldlM {α : Type} (f : State → α → M State) (hf : ∀ s a s', f s a = .ok s' → KeysOK s → KeysOK s')
+    (l : List α) (s s' : State) (h : l.foldlM f s = .ok s') (hk : KeysOK s) : KeysOK s' :=
+  foldlM_inv KeysOK f hf l s s' h hk
+
+theorem keysOK_payoutStep {s s' : State} {k : Time × Nat} (hk : KeysOK s) (h : payoutStep s k = .ok s') : KeysOK s' := by
+  unfold payoutStep at h
+  simp only [bind_eq_ok, pure_eq_ok, requireP_eq_ok, orPanic_eq_ok] at h
+  obtain ⟨item, hitem, reward, _, s2, h2, payAmt, _, _, _, s3, h3, rfl⟩ := h
+  have k1 : KeysOK { s with payQ := s.payQ.erase (item.nextAt, item.id) } := hk.of_recs (by rfl)
+  have k3 : KeysOK s3 := (k1.of_recs (recs_sendCoinFromDepositToModule h2)).of_recs (recs_sendCoinFromDepositToAccount h3)
+  have k4 : KeysOK (emit s3 (ev "sentinel.subscription.v2.EventPayForPayout"
+      [("address", addrTxt .acc item.addr), ("node_address", addrTxt .node item.node),
+       ("payment", (⟨item.price.denom, payAmt⟩ : Coin).sdkString), ("staking_reward", reward.sdkString), ("id", toString item.id)])) :=
+    keysOK_emit k3 _
+  have hid : (payoutAdvance item).id = item.id := by unfold payoutAdvance; simp only []; split <;> rfl
+  split
+  · exact { k4 with payouts := keyed_set k4.payouts _ _ rfl }
+  · exact { k4 with payouts := keyed_set k4.payouts _ _ rfl }
+
+theorem keysOK_beginBlock {s s' : State} {t : Time} (hk : KeysOK s) (h : beginBlock s t = .ok s') : KeysOK s' := by
+  unfold beginBlock haltOf at h
+  split at h <;> try contradiction
+  rename_i s'' hs
+  simp only [Except.ok.injEq] at h
+  subst h
+  unfold subscriptionBeginBlock at hs
+  refine keysOK_foldlM _ ?_ _ _ _ hs ?_
+  · intro s0 k s1 h1 hp
+    rw [panicIfErr_eq_ok] at h1
+    exact keysOK_payoutStep hp h1
+  · have k0 : KeysOK { s with time := t, height := s.height + 1, events := [] } := hk.of_recs (by rfl)
+    exact (k0.of_recs (recs_mintBeginBlock_go _ _)).of_recs (recs_distrSweep _)
+
+theorem keysOK_nodeSweep {s s' : State} (hk : KeysOK s) (h : nodeSweep s = .ok s') : KeysOK s' := by
+  unfold nodeSweep at h
+  split at h
+  · rw [pure_eq_ok] at h; rw [← h]; exact hk
+  · refine keysOK_foldlM _ ?_ _ s s' h hk
+    intro s0 a s1 h1 hp
+    simp only [bind_eq_ok, pure_eq_ok, orPanic_eq_ok] at h1
+    obtain ⟨item, _, s2, h2, rfl⟩ := h1
+    exact keysOK_emit (keysOK_setNode hp h2) _
+
+theorem keysOK_nodeExpire {s s' : State} (hk : KeysOK s) (h : nodeExpire s = .ok s') : KeysOK s' := by
+  unfold nodeExpire at h
+  refine keysOK_foldlM _ ?_ _ s s' h hk
+  intro s0 k s1 h1 hp
+  unfold nodeExpireStep at h1
+  simp only [bind_eq_ok, pure_eq_ok, orPanic_eq_ok] at h1
+  obtain ⟨item, _, s3, h3, rfl⟩ := h1
+  have k2 : KeysOK { { s0 with nodeActive := s0.nodeActive.erase item.addr } with
+      nodeQ := s0.nodeQ.erase (item.inactiveAt, item.addr) } :=
+    { hp with nodeA := keyed_erase hp.nodeA _ }
+  exact keysOK_emit (keysOK_setNode k2 h3) _
+
+theorem keysOK_settleSession {s s' : State} {x : Session} {acc node : Addr} {dep : Coin} {gb b a : Int} (hk : KeysOK s)
+    (h : settleSession s x acc node dep gb b a = .ok s') : KeysOK s' := by
+  unfold settleSession at h
+  simp only [bind_eq_ok, pure_eq_ok, requireP_eq_ok] at h
+  obtain ⟨price, _, prev, _, cur, _, payAmt, _, payment, _, reward, _, s1, h1, netAmt, _, _, _, s2, h2, rfl⟩ := h
+  exact keysOK_emit ((hk.of_recs (recs_sendCoinFromDepositToModule h1)).of_recs (recs_sendCoinFromDepositToAccount h2)) _
+
+theorem keysOK_sessionInactiveHook {s s' : State} {id : Nat} {acc node : Addr} {bytes : Int} (hk : KeysOK s)
+    (h : sessionInactiveHook s id acc node bytes = .ok s') : KeysOK s' := by
+  unfold sessionInactiveHook at h
+  simp only [bind_eq_ok, require_eq_ok, orReject_eq_ok] at h
+  obtain ⟨x, _, _, _, sub, _, h⟩ := h
+  split at h
+  · rw [pure_eq_ok] at h; rw [← h]; exact hk
+  · simp only [bind_eq_ok, orReject_eq_ok] at h
+    obtain ⟨a, ha, used, _, h⟩ := h
+    have k1 : KeysOK (emit (setAllocation s (allocAfterUse a used)) (evAllocate (allocAfterUse a used))) :=
+      keysOK_emit (keysOK_setAllocation hk _) _
+    split at h
+    · exact keysOK_settleSession k1 h
+    · rw [pure_eq_ok] at h; rw [← h]; exact k1
+
+theorem keysOK_removeSession {s : State} (hk : KeysOK s) (item : Session) : KeysOK (removeSession s item) := by
+  unfold removeSession
+  refine keysOK_emit ?_ _
+  exact { hk with sess := keyed_erase hk.sess _ }
+
+theorem keysOK_sessionStep {s s' : State} {k : Time × Nat} (hk : KeysOK s) (h : sessionStep s k = .ok s') : KeysOK s' := by
+  unfold sessionStep at h
+  simp only [bind_eq_ok, orPanic_eq_ok] at h
+  obtain ⟨item, _, h⟩ := h
+  split at h
+  · rw [pure_eq_ok] at h; rw [← h]; exact keysOK_sessionToPending hk item
+  · simp only [bind_eq_ok, pure_eq_ok, panicIfErr_eq_ok] at h
+    obtain ⟨bytes, _, s2, h2, rfl⟩ := h
+    have k1 : KeysOK { s with sessQ := s.sessQ.erase (item.inactiveAt, item.id) } := hk.of_recs (by rfl)
+    exact keysOK_removeSession (keysOK_sessionInactiveHook k1 h2) item
+
+theorem keysOK_refundSub {s s' : State} {item : Sub} (hk : KeysOK s) (h : refundSub s item = .ok s') : KeysOK s' := by
+  unfold refundSub at h
+  split at h
+  · simp only [bind_eq_ok] at h
+    obtain ⟨s1, h1, h2⟩ := h
+    have i1 : KeysOK s1 := by
+      split at h1
+      · unfold refundGB at h1
+        simp only [bind_eq_ok, pure_eq_ok, orPanic_eq_ok, panicIfErr_eq_ok] at h1
+        obtain ⟨price, _, a, _, paid, _, ra, _, refund, _, s2, h2', rfl⟩ := h1
+        exact keysOK_emit (hk.of_recs (recs_subtractDeposit h2')) _
+      · rw [pure_eq_ok] at h1; rw [← h1]; exact hk
+    split at h2
+    · unfold refundHr at h2
+      simp only [bind_eq_ok, pure_eq_ok, orPanic_eq_ok, panicIfErr_eq_ok] at h2
+      obtain ⟨p, _, ra, _, refund, _, s2, h2', rfl⟩ := h2
+      exact keysOK_emit (i1.of_recs (recs_subtractDeposit h2')) _
+    · rw [pure_eq_ok] at h2; rw [← h2]; exact i1
+  · rw [pure_eq_ok] at h; rw [← h]; exact hk
+
+theorem keysOK_removeAllocs (l : List Addr) : ∀ (s : State) (id : Nat), KeysOK s → KeysOK (removeAllocs s id l) := by
+  unfold removeAllocs
+  induction l with
+  | nil => intro s id h; exact h
+  | cons a rest ih =>
+    intro s id h
+    rw [List.foldl_cons]
+    exact ih _ id { h with allocs := keyed_erase h.allocs _ }
+
+theorem keysOK_removeSubRecords {s : State} (hk : KeysOK s) (item : Sub) : KeysOK (removeSubRecords s item) := by
+  unfold removeSubRecords
+  cases item.kind with
+  | node n g h d =>
+    refine keysOK_emit ?_ _
+    exact { hk with allocs := keyed_erase hk.allocs _, subs := keyed_erase hk.subs _ }
+  | plan pid dn =>
+    simp only []
+    have k1 : KeysOK { s with subForPlan := s.subForPlan.erase (pid, item.id) } := hk.of_recs (by rfl)
+    have k2 := keysOK_removeAllocs (allocAddrsForSub { s with subForPlan := s.subForPlan.erase (pid, item.id) } item.id) _ item.id k1
+    refine keysOK_emit ?_ _
+    exact { k2 with subs := keyed_erase k2.subs _ }
+
+theorem keysOK_removePayout {s s' : State} {item : Sub} (hk : KeysOK s) (h : removePayout s item = .ok s') : KeysOK s' := by
+  unfold removePayout at h
+  split at h
+  · simp only [bind_eq_ok, pure_eq_ok, orPanic_eq_ok] at h
+    obtain ⟨p, _, rfl⟩ := h
+    exact { hk with payouts := keyed_erase hk.payouts _ }
+  · rw [pure_eq_ok] at h; rw [← h]; exact hk
+
+theorem keysOK_detachPayout {s s' : State} {sub : Sub} {b : Bool} (hk : KeysOK s) (h : detachPayout s sub b = .ok s') : KeysOK s' := by
+  unfold detachPayout at h
+  split at h
+  · simp only [bind_eq_ok, pure_eq_ok] at h
+    obtain ⟨p, _, rfl⟩ := h
+    unfold detachPayoutRec
+    exact { hk with payouts := keyed_set hk.payouts _ _ rfl }
+  · rw [pure_eq_ok] at h; rw [← h]; exact hk
+
+theorem keysOK_subToPending {s : State} (hk : KeysOK s) (sub : Sub) (d : Dur) : KeysOK (subToPending s sub d).1 := by
+  unfold subToPending
+  exact { hk with subs := keyed_set hk.subs _ _ rfl }
+
+theorem keysOK_subscriptionStep {s s' : State} {d : Dur} {k : Time × Nat} (hk : KeysOK s)
+    (h : subscriptionStep d s k = .ok s') : KeysOK s' := by
+  unfold subscriptionStep at h
+  simp only [bind_eq_ok, orPanic_eq_ok] at h
+  obtain ⟨item, _, h⟩ := h
+  have k1 : KeysOK { s with subQ := s.subQ.erase (item.inactiveAt, item.id) } := hk.of_recs (by rfl)
+  split at h
+  · simp only [bind_eq_ok, panicIfErr_eq_ok] at h
+    obtain ⟨s2, h2, h3⟩ := h
+    unfold subscriptionInactivePendingHook at h2
+    have k2 : KeysOK s2 := keysOK_hookFold _ _ s2 h2 k1
+    exact keysOK_detachPayout (keysOK_subToPending k2 item d) h3
+  · simp only [bind_eq_ok] at h
+    obtain ⟨s2, h2, h3⟩ := h
+    exact keysOK_removePayout (keysOK_removeSubRecords (keysOK_refundSub k1 h2) item) h3
+
+theorem keysOK_endBlock {s s' : State} (hk : KeysOK s) (h : endBlock s = .ok s') : KeysOK s' := by
+  unfold endBlock haltOf at h
+  split at h <;> try contradiction
+  rename_i s2 hs
+  split at hs <;> try contradiction
+  rename_i s3 hs3
+  simp only [Except.ok.injEq] at hs h
+  subst hs; subst h
+  unfold vpnEndBlock nodeEndBlock at hs3
+  simp only [bind_eq_ok] at hs3
+  obtain ⟨s1, ⟨sa, ha, hb⟩, sb, hc, hd⟩ := hs3
+  have k0 : KeysOK { s with events := [] } := hk.of_recs (by rfl)
+  have i1 : KeysOK s1 := keysOK_nodeExpire (keysOK_nodeSweep k0 ha) hb
+  have i2 : KeysOK sb := keysOK_foldlM _ (fun s0 k s1 h1 hp => keysOK_sessionStep hp h1) _ _ _ hc i1
+  have i3 : KeysOK s3 := keysOK_foldlM _ (fun s0 k s1 h1 hp => keysOK_subscriptionStep hp h1) _ _ _ hd i2
+  exact i3.of_recs (by rfl)
+
+theorem keysOK_gov (s : State) (c : ParamChange) (hk : KeysOK s) : KeysOK ((gov s c).getD s) := by
+  cases hg : gov s c with
+  | none => exact hk
+  | some s' =>
+    simp only [Option.getD]
+    refine hk.of_recs ?_
+    unfold gov at hg
+    cases c <;> simp only [] at hg <;> (try split at hg) <;> (try split at hg) <;>
+      first
+        | (simp only [Option.some.injEq] at hg; rw [← hg]; rfl)
+        | (simp only [reduceCtorEq] at hg)
+
+theorem keysOK_step (s s' : State) (op : Op) (h : step s op = some s') (hk : KeysOK s) : KeysOK s' := by
+  cases op with
+  | tx m =>
+    simp only [step, Option.some.injEq] at h
+    rw [← h]; exact KeysOK_deliver s m hk
+  | begin t =>
+    simp only [step] at h
+    split at h
+    · rename_i s1 hb
+      simp only [Option.some.injEq] at h; rw [← h]; exact keysOK_beginBlock hk hb
+    · contradiction
+  | endB =>
+    simp only [step] at h
+    split at h
+    · rename_i s1 hb
+      simp only [Option.some.injEq] at h; rw [← h]; exact keysOK_endBlock hk hb
+    · contradiction
+  | gov c =>
+    simp only [step, Option.some.injEq] at h
+    rw [← h]; exact keysOK_gov s c hk
+
+/-- `KeysOK` holds in every state of every history that starts from a genesis state of the domain. -/
+theorem keysOK_all_histories (ops : List Op) (s : State) (hk : KeysOK s) : ∀ s' ∈ runTrace s ops, KeysOK s' := by
+  induction ops generalizing s with
+  | nil => intro s' h; simp [runTrace] at h
+  | cons op rest ih =>
+    intro s' h
+    simp only [runTrace] at h
+    cases hst : step s op with
+    | none => simp [hst] at h
+    | some s1 =>
+      simp only [hst, List.mem_cons] at h
+      have k1 := keysOK_step s s1 op hst hk
+      rcases h with h | h
+      · rw [h]; exact k1
+      · exact ih s1 k1 s' h
+
+/-- The state after delivering a list of messages (accepted or rejected). -/
+def deliverAll (s : State) (ms : List Msg) : State := ms.foldl (fun st m => (deliver st m).1) s
+
+theorem keysOK_deliverAll (ms : List Msg) : ∀ s, KeysOK s → KeysOK (deliverAll s ms) := by
+  induction ms with
+  | nil => intro s h; exact h
+  | cons m rest ih => intro s h; exact ih _ (KeysOK_deliver s m h)
+
 end Hub.Model
